@@ -89,6 +89,40 @@ func genC13(e *emitter, tier string) {
 			c := corrupt(e.rng, v)
 			emit(sd, tr, e.rng.Intn(2) == 0, c)
 		}
+		// validation makes every operation total: two accepted values of one type go
+		// through each operation; an error or a panic is a failure
+		if i%3 == 0 {
+			w := mutate(e.rng, &sd.parser.Schema, tr, v, genMode{}, 3)
+			ta, tb := typedOf(sd, tr, v, false), typedOf(sd, tr, w, false)
+			if ta != nil && tb != nil {
+				run := func(f func() error) (res string) {
+					defer func() {
+						if r := recover(); r != nil {
+							res = "panic"
+						}
+					}()
+					if err := f(); err != nil {
+						return "err"
+					}
+					return "ok"
+				}
+				var fs *fieldpath.Set
+				rs := []string{
+					run(func() error { _, err := ta.Merge(tb); return err }),
+					run(func() error { _, err := ta.Compare(tb); return err }),
+					run(func() error { var err error; fs, err = ta.ToFieldSet(); return err }),
+					run(func() error {
+						if fs != nil {
+							ta.RemoveItems(fs.Leaves())
+							ta.ExtractItems(fs.Leaves(), typed.WithAppendKeyFields())
+						}
+						return nil
+					}),
+					run(func() error { return ta.Validate() }),
+				}
+				e.line(fmt.Sprintf("(c13.total %s %s %s %s (%s))", quote(sd.id), sexpTypeRef(tr), sexpValue(v), sexpValue(w), strings.Join(rs, " ")))
+			}
+		}
 	}
 	// schema documents against the schema of schemas
 	if shardIndex == 0 {
